@@ -793,6 +793,86 @@ fn finish(ctx: &mut Ctx, op: &str, out: String, nontrivial: bool, verdicts: Vec<
     }
 }
 
+/// C04 judged on the part ids alone (used when the hook replay cannot reproduce them): for every
+/// offset under which the ids form a strict bisection tree (leaf = id + offset, axes cyclic), every
+/// internal node must leave on its low side a weight within tolerance of the half, or an achievable
+/// weight adjacent to the half-weight mark. Returns a description of a failing node when no offset
+/// gives a tree whose nodes all pass.
+fn ids_only_unbalanced(d: usize, k: usize, tol: f64, ws: &[i64], xs: &[f64], ids: &[usize]) -> Option<String> {
+    let n = ids.len();
+    if n == 0 || k == 0 || k > 12 || xs.len() != n * d {
+        return None;
+    }
+    let x: Vec<f32> = xs.iter().map(|v| *v as f32).collect();
+    let leaves = 1usize << k;
+    let max_id = *ids.iter().max().unwrap();
+    if max_id >= leaves {
+        return Some(format!("id {} with iter_count {}", max_id, k));
+    }
+    let mut first: Option<String> = None;
+    'offsets: for o in 0..=(leaves - 1 - max_id) {
+        for lvl in 0..k {
+            let axis = lvl % d;
+            for node in 0..(1usize << lvl) {
+                let members: Vec<usize> = (0..n).filter(|&i| (ids[i] + o) >> (k - lvl) == node).collect();
+                if members.len() < 2 {
+                    continue;
+                }
+                let is_high = |i: usize| ((ids[i] + o) >> (k - 1 - lvl)) & 1 == 1;
+                let lo_max = members.iter().filter(|&&i| !is_high(i)).map(|&i| x[i * d + axis]).fold(f32::NEG_INFINITY, f32::max);
+                let hi_min = members.iter().filter(|&&i| is_high(i)).map(|&i| x[i * d + axis]).fold(f32::INFINITY, f32::min);
+                if !(lo_max < hi_min) {
+                    // not a bisection under this offset
+                    continue 'offsets;
+                }
+                let w: i64 = members.iter().map(|&i| ws[i]).sum();
+                let wl: i64 = members.iter().filter(|&&i| !is_high(i)).map(|&i| ws[i]).sum();
+                if w <= 0 {
+                    continue;
+                }
+                let within = ((2 * wl - w).abs() as f64) <= tol * w as f64;
+                // achievable low-side weights: prefix sums over the distinct coordinate values
+                let mut vals: Vec<(f32, i64)> = members.iter().map(|&i| (x[i * d + axis], ws[i])).collect();
+                vals.sort_by(|a, b| a.0.partial_cmp(&b.0).unwrap());
+                let mut ach: Vec<i64> = vec![0];
+                let mut acc = 0i64;
+                let mut j = 0;
+                while j < vals.len() {
+                    let v = vals[j].0;
+                    while j < vals.len() && vals[j].0 == v {
+                        acc += vals[j].1;
+                        j += 1;
+                    }
+                    ach.push(acc);
+                }
+                let brackets = match ach.iter().position(|&a| a == wl) {
+                    None => false,
+                    Some(_) => {
+                        // some occurrence of wl among the achievable weights is adjacent to the half
+                        (0..ach.len()).any(|q| {
+                            ach[q] == wl
+                                && ((2 * ach[q] <= w && (q + 1 == ach.len() || 2 * ach[q + 1] >= w))
+                                    || (2 * ach[q] >= w && (q == 0 || 2 * ach[q - 1] <= w)))
+                        })
+                    }
+                };
+                if !within && !brackets {
+                    if first.is_none() {
+                        first = Some(format!(
+                            "offset {} level {} node {} axis {}: low side weighs {} of {} ({} points), tolerance {}: neither within tolerance of the half nor adjacent to the half-weight mark (achievable {:?})",
+                            o, lvl, node, axis, wl, w, members.len(), tol, &ach[..ach.len().min(12)]
+                        ));
+                    }
+                    continue 'offsets;
+                }
+            }
+        }
+        // a tree under this offset passes everywhere
+        return None;
+    }
+    first
+}
+
 #[allow(clippy::too_many_arguments)]
 fn run_tree(ctx: &mut Ctx, op: &str, rib: bool, d: usize, iter: usize, tol: f64, threads: usize, ws: Vec<i64>, orig: Vec<f64>, rot: Vec<f64>) {
     let n = ws.len();
@@ -853,8 +933,15 @@ fn run_tree(ctx: &mut Ctx, op: &str, rib: bool, d: usize, iter: usize, tol: f64,
         Caught::Hang => unreachable!(),
     };
     if rids != ids {
+        // The node-by-node replay through the hooks does not reproduce the public API's ids (never
+        // on the unchanged tree): the causes cannot be attributed, but the property can still be
+        // judged on the ids alone.
         ctx.count("replay_mismatch");
-        finish(ctx, op, "replay-mismatch".into(), false, vec![]);
+        let verdicts = match ids_only_unbalanced(d, iter, tol, &ws, pts, &ids) {
+            Some(what) if !ws.iter().any(|&w| w < 0) => vec![("rcb-unbalanced-unreplayable".to_string(), what)],
+            _ => vec![],
+        };
+        finish(ctx, op, "replay-mismatch".into(), false, verdicts);
         return;
     }
     if nodes.iter().any(|nd| nd.drift) {
